@@ -291,6 +291,8 @@ static Verdict runCase(const Case& c, Info& info)
                 info.tag("reassembled_total_within_40_of_65535");
             if (m.segmented && total == 65535)
                 info.tag("reassembled_total_65535");
+            if (m.segmented && m.segs.size() >= 255)
+                info.tag("message_of_255_or_more_segments");
         }
     if (deliveredSegmented)
         info.tag("segmented_message_delivered");
@@ -348,6 +350,19 @@ static rc::Gen<Case> genCase(int tier)
                         left -= sp.len;
                         sp.trailKind = *rc::gen::weightedElement<uint8_t>({{8, 0}, {1, 1}});
                         sp.trailLen = *anyInt<uint8_t>();
+                        sm.segs.push_back(sp);
+                    }
+                    ep.msgs.push_back(sm);
+                    continue;
+                }
+                // many tiny segments (segment counts around 2^8 and beyond)
+                if (sm.segmented && *range<int>(0, 59) == 0)
+                {
+                    nSeg = *rc::gen::weightedOneOf<int>({{2, rc::gen::element<int>(255, 256, 257)}, {1, range<int>(258, 700)}});
+                    for (int s = 0; s < nSeg; ++s)
+                    {
+                        SegSpec sp;
+                        sp.len = *range<uint16_t>(0, 2);
                         sm.segs.push_back(sp);
                     }
                     ep.msgs.push_back(sm);
